@@ -9,7 +9,7 @@
    entries applied in order, last definition-or-free wins (spec_resolve). *)
 From Coq Require Import List NArith ZArith Bool.
 From GoPdf.Base Require Import Bytes Res.
-From GoPdf.C04 Require Import XRef XRefProofs XRefText XRefTextProofs Extent ExtentProofs Seq LitString LitStringProofs FileReader FileReaderProofs RenderShape ReadRender.
+From GoPdf.C04 Require Import XRef XRefProofs XRefText XRefTextProofs Extent ExtentProofs Seq LitString LitStringProofs FileReader FileReaderProofs RenderShape RenderChecks ReadRender.
 Import ListNotations.
 
 (* For every chain of any length over any object numbers that is conforming (wf_chain: every
@@ -126,44 +126,40 @@ Print Assumptions stream_extent.
 (* ---------- read_render: the reader on BYTES opened on the rendered file ---------- *)
 (* open_bytes is NewReader up to the xref table and trailer, on bytes: find %PDF-, the last
    startxref and its number, then the /Prev loop with every section parsed from the file
-   (readXRefTable twice, the xref stream object with ReadStreamData / checkXRefStreamDict /
-   decodeXRefStream).  parse_value is the generic object parser (H-parse: it reads back a
-   dictionary Seq.rv wrote, whatever follows).
+   (readXRefTable twice, /XRefStm, the xref stream object with ReadStreamData /
+   checkXRefStreamDict / decodeXRefStream).  parse_value is the generic object parser
+   (H-parse: it reads back a dictionary Seq.rv wrote, whatever follows).
 
-   The full statement, kept visible: *)
+   For EVERY history - classic sections, xref-stream sections and hybrid sections in any mix
+   and number - and EVERY choice list c of the renderer (white space, comments, EOL kinds,
+   junk before the header, subsection splits, /Index present or omitted, every /W the
+   renderer picks, which objects of a hybrid section are hidden) the reader opened on the
+   rendered bytes returns the table and the trailer the specification gives for the history.
+   The hypotheses are conditions on the history and the file size only:
+     rev_ok r   object numbers below /Size <= 2^24, generations <= 65535, next-free fields
+                below 10^10, fewer than 2^24 - 3 actions, the numbers of the xref stream and
+                the object stream below /Size, extra trailer keys that are not Length,
+                Filter, Prev, Index or XRefStm;
+     wf_chain   the rendered file is conforming (the hypothesis of resolve_refines);
+     the file is shorter than 10^10 bytes (offsets fit the ten digits of a table line).
+   That the reader's checks (20-byte lines, checkXRefStreamDict with the widths and /Index
+   the renderer wrote, field widths that fit) accept what the renderer writes is derived
+   (RenderChecks.v), not assumed. *)
 Definition read_render_statement : Prop :=
   forall (parse_value : bytes -> res (value * bytes)),
     (forall d c rest, parse_value (fst (rv (VDict d) c) ++ rest) = Ok (VDict d, rest)) ->
     forall h c, let b := build h c in
-      h <> [] -> wf_chain (file_size b) (b_chain b) = true ->
-      exists fuel m, open_bytes parse_value fuel (b_bytes b) = Ok (m, spec_trailer (history_of (b_chain b)))
-                     /\ forall n, xlookup m n = spec_resolve (history_of (b_chain b)) n.
-
-(* Proved for histories without hybrid sections (classic tables and xref streams, in any mix and
-   number; object streams inside the bodies do not matter at this level), for EVERY choice
-   list c of the renderer: white space, comments, EOL kinds, junk before the header,
-   subsection splits, /Index present or omitted, every /W the renderer picks.  chain_check is
-   a decidable side condition on what was rendered (offsets below 10^10 and generations below
-   65536 so that they fit the 20-byte lines, object numbers below 2^24, the extra trailer keys
-   do not clash with Prev / XRefStm / Length / Filter, checkXRefStreamDict accepts the xref
-   stream dictionary); the check evaluates it for every generated file.
-   Gap to the full statement: hybrid sections (the /XRefStm branch of the reader model is
-   written but its rendering is not connected), and chain_check is assumed rather than
-   derived from conditions on h. *)
-Theorem read_render_partial :
-  forall (parse_value : bytes -> res (value * bytes)),
-    (forall d c rest, parse_value (fst (rv (VDict d) c) ++ rest) = Ok (VDict d, rest)) ->
-    forall h c, let b := build h c in
       h <> [] ->
-      (forall r, In r h -> d_kind r <> KHybrid /\ (d_xnum r < 16777216)%N) ->
-      chain_check (b_chain b) = true ->
+      (forall r, In r h -> rev_ok r = true) ->
       wf_chain (file_size b) (b_chain b) = true ->
-      (Z.of_nat (length (b_bytes b)) < 2 ^ 62)%Z ->
+      (Z.of_nat (length (b_bytes b)) < 10 ^ 10)%Z ->
       exists m, open_bytes parse_value (S (length (layout_of (b_chain b)))) (b_bytes b)
                 = Ok (m, spec_trailer (history_of (b_chain b)))
                 /\ forall n, xlookup m n = spec_resolve (history_of (b_chain b)) n.
+
+Theorem read_render : read_render_statement.
 Proof. exact read_render_lemma. Qed.
-Print Assumptions read_render_partial.
+Print Assumptions read_render.
 
 (* more fuel does not change the answer *)
 Theorem open_bytes_fuel_mono :
@@ -231,20 +227,24 @@ Example stream_extent_ex :
   /\ Extent.stream_extent ([10]%N ++ body ++ [13; 10]%N ++ kw_endstream ++ [10]%N) (Some 3%Z) = Ok (1%nat, 11%nat).
 Proof. repeat split; vm_compute; reflexivity. Qed.
 
-(* a history with a classic revision and an xref-stream update, rendered under some choices:
-   the side conditions of read_render_partial hold *)
+(* a history with a classic revision, an xref-stream update and a hybrid update, rendered
+   under some choices: the hypotheses of read_render hold *)
 Definition ex_history : list drev :=
   [ {| d_acts := [AFree 0 65535 0; ADefine 1 0 (OVal (VInt 7));
                   ADefine 2 0 (OVal (VDict [([84; 121; 112; 101]%N, VName [67; 97; 116; 97; 108; 111; 103]%N)]))];
        d_kind := KTable; d_xnum := 0; d_onum := 0; d_size := 3; d_extra := [(k_Root, VRef 2 0)] |};
     {| d_acts := [ADefine 1 0 (OVal (VStr [104; 105]%N)); AFree 3 0 0; ADefineC 4 (VInt 9)];
-       d_kind := KStream; d_xnum := 5; d_onum := 6; d_size := 7; d_extra := [(k_Root, VRef 2 0)] |} ].
+       d_kind := KStream; d_xnum := 5; d_onum := 6; d_size := 7; d_extra := [(k_Root, VRef 2 0)] |};
+    {| d_acts := [ADefine 7 0 (OVal (VInt 1)); ADefine 8 0 (OVal (VInt 2)); ADefineC 9 (VStr [120]%N)];
+       d_kind := KHybrid; d_xnum := 10; d_onum := 11; d_size := 12; d_extra := [(k_Root, VRef 2 0)] |} ].
 Definition ex_choices : list N := [3; 1; 4; 1; 5; 9; 2; 6; 5; 3; 5; 8; 9; 7; 9; 3; 2; 3; 8; 4; 6; 2; 6; 4; 3; 3; 8; 3; 2; 7; 9; 5; 0; 2; 8; 8; 4; 1; 9; 7]%N.
+(* a classic, a stream and a hybrid revision: the hypotheses hold, and the last section of the
+   rendered chain is the hybrid one *)
 Example read_render_hypotheses_ex :
   let b := build ex_history ex_choices in
-  chain_check (b_chain b) = true /\ wf_chain (file_size b) (b_chain b) = true
-  /\ (Z.of_nat (length (b_bytes b)) <? 2 ^ 62)%Z = true.
-Proof. vm_compute. repeat split; reflexivity. Qed.
+  read_render_hyp ex_history b = true
+  /\ match b_chain b with RHybrid _ _ _ _ _ :: _ => true | _ => false end = true.
+Proof. vm_compute. split; reflexivity. Qed.
 
 (* "first LF second LF third" with the first LF written as a raw CR and the second as a raw
    LF, a continuation CR in front of "third" - the shape on which a reader that keeps
